@@ -520,6 +520,9 @@ class Body:
             c = d[3]
             f = c["f"]
             nm = f.get("res") or f.get("fn") or "ind"
+            cb = self.facts.bodies.get(nm) if f.get("loc") else None
+            if cb is not None and self.facts._canon is not None:
+                nm = self.facts.canon_of(cb)      # rename-resolved name of a crate-local callee
             nm = nm.split("::")[-1] if not nm.startswith("<") else nm
             return "%s(%s)" % (nm, ",".join(self.oname(a, depth - 1, seen) for a in c["args"]))
         return self.rvname(d[3], depth, seen)
@@ -702,6 +705,27 @@ class Body:
         return d
 
 
+def _remap(x, loff, boff):
+    """shift every local and block number inside a MIR JSON fragment (used by Facts.inlined)."""
+    if isinstance(x, dict):
+        if set(x.keys()) == {"l", "p"}:
+            x["l"] += loff
+            for e in x["p"]:
+                if isinstance(e, dict) and "idx" in e:
+                    e["idx"] += loff
+            return
+        for k, v in x.items():
+            if k in ("to", "uw", "else") and isinstance(v, int):
+                x[k] = v + boff
+            elif k == "tg":
+                x[k] = [[a, bb + boff] for a, bb in v]
+            else:
+                _remap(v, loff, boff)
+    elif isinstance(x, list):
+        for v in x:
+            _remap(v, loff, boff)
+
+
 def match_name(c, pred):
     names = [c.name, c.fn, c.full, c.res]
     if callable(pred):
@@ -716,6 +740,7 @@ class Facts:
         with open(path) as f:
             self.d = json.load(f)
         self.path = path
+        self.data_renames = self._resolve_data_renames()
         self.bodies = {}
         self.dups = []
         for bd in self.d["bodies"]:
@@ -731,6 +756,123 @@ class Facts:
         self.impls = self.d["impls"]
         self._cg = None
         self._closures_of = None
+        self._rec = None
+        self._inl = {}
+        self.new_helpers = {}
+        self.hidden = {}
+        self._apply_reviewed_view()
+
+    def _resolve_data_renames(self):
+        """private struct fields and named constants of the reviewed tree (tables/data_anchors.json) that were renamed:
+        a struct whose fields have the recorded types in the recorded order but other names for some private fields; a
+        recorded constant that is gone while exactly one new constant of the same module, type and value exists.  The facts
+        are rewritten to the recorded names, so every rule keeps working."""
+        p = os.path.join(V, "tables", "data_anchors.json")
+        if not os.path.exists(p):
+            return {}
+        with open(p) as f:
+            anch = json.load(f)
+        fmap = {}
+        for a in self.d["adts"]:
+            rec = anch["adts"].get(a["name"])
+            if rec is None or len(rec) != len(a["variants"]):
+                continue
+            for v, rv in zip(a["variants"], rec):
+                cur = v["fields"]
+                if len(cur) != len(rv) or [f["ty"] for f in cur] != [r[1] for r in rv]:
+                    continue
+                curnames = {f["n"] for f in cur}
+                for f, r in zip(cur, rv):
+                    if f["n"] != r[0] and r[0] not in curnames and f["vis"] != "Public":
+                        fmap[(a["name"], f["n"])] = r[0]
+        cmap = {}
+        cur = {c["name"]: c for c in self.d["consts"]}
+        missing = [n for n in anch["consts"] if n not in cur]
+        if missing:
+            extra = [c for n, c in cur.items() if n not in anch["consts"] and "::{" not in n]
+            for n in missing:
+                r = anch["consts"][n]
+                mod = n.rsplit("::", 1)[0]
+                cands = [c for c in extra if c["name"].rsplit("::", 1)[0] == mod and c.get("ty") == r["ty"]
+                         and (c.get("raw") or c.get("int") or c.get("bytes")) == r["val"]]
+                if len(cands) == 1:
+                    cmap[cands[0]["name"]] = n
+        if not fmap and not cmap:
+            return {}
+
+        def walk(x):
+            if isinstance(x, dict):
+                if "f" in x and "adt" in x and (x["adt"], x.get("n")) in fmap:
+                    x["n"] = fmap[(x["adt"], x["n"])]
+                if x.get("a") == "adt" and "fields" in x:
+                    x["fields"] = [fmap.get((x["adt"], n), n) for n in x["fields"]]
+                if "def" in x and x["def"] in cmap:
+                    x["def"] = cmap[x["def"]]
+                for v in x.values():
+                    walk(v)
+            elif isinstance(x, list):
+                for v in x:
+                    walk(v)
+        walk(self.d["bodies"])
+        for a in self.d["adts"]:
+            for v in a["variants"]:
+                for f in v["fields"]:
+                    f["n"] = fmap.get((a["name"], f["n"]), f["n"])
+        for c in self.d["consts"]:
+            c["name"] = cmap.get(c["name"], c["name"])
+        return {"fields": {"%s.%s" % k: v for k, v in fmap.items()}, "consts": cmap}
+
+    def _apply_reviewed_view(self):
+        """The rules are written against the decomposition into functions of the reviewed tree (tables/anchors.json lists
+        every function of it).  A private, non-recursive function that is not in that list (and is not a renamed one) is
+        part of some reviewed function that was split: it is inlined into its callers and disappears as a body of its
+        own, so that every rule — call multisets, order rules, guards, the panic inventory in the caller's context — sees
+        the code as before the split."""
+        p = os.path.join(V, "tables", "anchors.json")
+        if not os.path.exists(p) or os.environ.get("VERIF_NO_INLINE"):
+            return
+        with open(p) as f:
+            anchors = json.load(f)
+        self.canon
+        new = {}
+        for path, b in self.bodies.items():
+            if b.kind == "Closure" or self.canon_of(b) in anchors:
+                continue
+            if not b.vis.startswith("Restricted") or b.vis.startswith("Restricted(DefId(0:0 ") or b.n > 160:
+                continue
+            new[path] = b
+        if not new:
+            return
+        rec = set()
+        for comp in self.sccs():
+            if len(comp) > 1 or comp[0] in self.callgraph.get(comp[0], ()):
+                rec.update(comp)
+        new = {k: v for k, v in new.items() if k not in rec}
+        # only helpers all of whose callers are in the same file
+        for path, b in self.bodies.items():
+            for c in b.calls:
+                if c.local and c.name in new and new[c.name].file != b.file:
+                    new.pop(c.name, None)
+            for name, loc, _ in b.fn_mentions():
+                if loc and name in new:
+                    new.pop(name, None)      # used as a value (passed as fn item): keep it a function of its own
+        if not new:
+            return
+        self.new_helpers = new
+        repl = {}
+        for path, b in self.bodies.items():
+            if path in new:
+                continue
+            if any(c.local and c.name in new for c in b.calls):
+                repl[path] = self.inlined(b)
+        for path, nb in repl.items():
+            self.bodies[path] = nb
+        for path in new:
+            self.hidden[path] = self.bodies.pop(path)
+        self._cg = None
+        self._closures_of = None
+        self._canon = None
+        self._rec = None
 
     def body(self, path):
         return self.bodies.get(path)
@@ -868,6 +1010,10 @@ class Facts:
     def fns(self, name):
         return self.canon.get(name, [])
 
+    def fni(self, name):
+        """the function `name` with its private helpers inlined (see inlined)."""
+        return self.inlined(self.fn(name))
+
     def has_fn(self, name):
         return len(self.canon.get(name, [])) == 1
 
@@ -885,17 +1031,84 @@ class Facts:
                     # direct syntactic parent = path minus the last ::{closure#n}
                     par = b.path.rsplit("::{closure", 1)[0]
                     m[par].append(b)
+            # closures defined inside an inlined helper belong to the function it was inlined into
+            for b in self.bodies.values():
+                for h in getattr(b, "inlined", ()):
+                    for c in list(m.get(h, [])):
+                        if c not in m[b.path]:
+                            m[b.path].append(c)
             self._closures_of = m
         return self._closures_of.get(path, [])
 
     def with_closures(self, body):
-        """body plus (transitively) the closures defined inside it."""
+        """body plus (transitively) the closures defined inside it (and inside the helpers inlined into it)."""
         out = [body]
         i = 0
         while i < len(out):
-            out.extend(self.closures_of(out[i].path))
+            for c in self.closures_of(out[i].path):
+                if c not in out:
+                    out.append(c)
             i += 1
         return out
+
+    # ---- inlining of private helpers (analysis-time only)
+    def inlinable(self, caller, callee):
+        """a new private helper (see _apply_reviewed_view) of the same file."""
+        return callee.path in self.new_helpers and callee.file == caller.file and callee.path != caller.path
+
+    def inlined(self, body, depth=3, _stack=()):
+        """a synthetic Body in which every call to an inlinable helper is replaced by the helper's blocks (parameters are
+        assigned from the arguments, `return` stores into the destination and jumps to the call's target).  Rules that
+        look at the shape of "one function" use this view, so that extracting part of a function into a private helper,
+        or inlining such a helper, leaves the view unchanged.  The Body keeps the original path, names and file."""
+        if isinstance(body, str):
+            body = self.fn(body)
+        key = (body.path, depth)
+        if not _stack and key in self._inl:
+            return self._inl[key]
+        import copy
+        d = copy.deepcopy(body.d)
+        blocks, locals_, dbg = d["blocks"], d["locals"], d["dbg"]
+        inl = []
+        nb0 = len(blocks)
+        for bi in range(nb0):
+            t = blocks[bi]["t"]
+            if t["k"] != "call" or "ind" in t["f"] or not t["f"].get("loc"):
+                continue
+            tgt = t["f"].get("res") or t["f"].get("fn")
+            cb = self.bodies.get(tgt) or self.hidden.get(tgt)
+            if cb is None or depth <= 0 or cb.path in _stack or not self.inlinable(body, cb):
+                continue
+            if len(t["args"]) != cb.argc:
+                continue
+            cbi = self.inlined(cb, depth - 1, _stack + (body.path,))
+            cd = copy.deepcopy(cbi.d)
+            loff, boff = len(locals_), len(blocks)
+            locals_.extend(cd["locals"])
+            for e in cd["dbg"]:
+                e2 = copy.deepcopy(e)
+                _remap(e2["p"], loff, 0)
+                dbg.append(e2)
+            for blk in cd["blocks"]:
+                _remap(blk, loff, boff)
+                tt = blk["t"]
+                if tt["k"] == "return":
+                    blk["st"].append({"lhs": copy.deepcopy(t["dest"]), "rv": {"k": "use", "o": {"m": {"l": loff, "p": []}}}, "ln": tt["ln"], "x": tt.get("x", False)})
+                    blk["t"] = {"k": "goto", "to": t["to"], "ln": tt["ln"], "x": tt.get("x", False)} if t["to"] is not None else {"k": "unreachable", "ln": tt["ln"], "x": tt.get("x", False)}
+                elif tt["k"] == "resume" and t.get("uw") is not None:
+                    blk["t"] = {"k": "goto", "to": t["uw"], "ln": tt["ln"], "x": tt.get("x", False)}
+            for i, a in enumerate(t["args"]):
+                blocks[bi]["st"].append({"lhs": {"l": loff + 1 + i, "p": []}, "rv": {"k": "use", "o": a}, "ln": t["ln"], "x": t.get("x", False)})
+            blocks[bi]["t"] = {"k": "goto", "to": boff, "ln": t["ln"], "x": t.get("x", False)}
+            blocks.extend(cd["blocks"])
+            inl.append(cb.path)
+            inl.extend(getattr(cbi, "inlined", ()))
+        nb = Body(d, self)
+        nb.inlined = inl
+        nb.origin = body
+        if not _stack:
+            self._inl[key] = nb
+        return nb
 
     # ---- call graph (crate-local)
     @property
